@@ -82,6 +82,41 @@ class Interp:
         """Resolve a branch condition under the analysis configuration (None = unknown)."""
         return None
 
+    def _decide(self, test: ast.expr, env: Env, depth: int = 0) -> Optional[bool]:
+        """decide(), and where that gives no answer: through a boolean local that names the condition
+        (`hard = noise_var is None and not self.soft_output; ...; if hard:`), and through not / and / or of decided parts."""
+        d = self.decide(test, env)
+        if d is not None or depth > 4:
+            return d
+        if isinstance(test, ast.UnaryOp) and isinstance(test.op, ast.Not):
+            v = self._decide(test.operand, env, depth + 1)
+            return None if v is None else not v
+        if isinstance(test, ast.BoolOp):
+            vals = [self._decide(v, env, depth + 1) for v in test.values]
+            if isinstance(test.op, ast.And):
+                if any(v is False for v in vals):
+                    return False
+                return True if all(v is True for v in vals) else None
+            if any(v is True for v in vals):
+                return True
+            return False if all(v is False for v in vals) else None
+        if isinstance(test, ast.Name):
+            defs = getattr(self, "_bool_defs", None)
+            if defs is None:
+                defs = {}
+                for st in ast.walk(self.fi.node):
+                    if isinstance(st, ast.Assign) and len(st.targets) == 1 and isinstance(st.targets[0], ast.Name):
+                        defs.setdefault(st.targets[0].id, []).append(st.value)
+                    elif isinstance(st, (ast.AugAssign, ast.AnnAssign, ast.For, ast.With)) :
+                        for x in ast.walk(st.target if hasattr(st, "target") else st):
+                            if isinstance(x, ast.Name) and isinstance(x.ctx, ast.Store):
+                                defs.setdefault(x.id, []).append(None)
+                self._bool_defs = defs
+            vs = defs.get(test.id, [])
+            if len(vs) == 1 and isinstance(vs[0], (ast.BoolOp, ast.Compare, ast.UnaryOp)) and test.id not in self.fi.params:
+                return self._decide(vs[0], env, depth + 1)
+        return None
+
     def refine(self, test: ast.expr, env: Env, truth: bool) -> Env:
         return env
 
@@ -144,7 +179,7 @@ class Interp:
         return self.top()
 
     def eval_IfExp(self, node: ast.IfExp, env: Env) -> Any:
-        d = self.decide(node.test, env)
+        d = self._decide(node.test, env)
         if d is True:
             return self.eval(node.body, self.refine(node.test, env, True))
         if d is False:
@@ -317,7 +352,7 @@ class Interp:
         return f
 
     def stmt_If(self, st: ast.If, env: Env) -> _Flow:
-        d = self.decide(st.test, env)
+        d = self._decide(st.test, env)
         if d is None:
             self.eval(st.test, env)
         flows = []
@@ -326,10 +361,15 @@ class Interp:
         if d is not True:
             flows.append(self.exec_block(st.orelse, self.refine(st.test, dict(env), False)))
         out = _Flow(None)
-        for f in flows:
-            out.env = self.join_env(out.env, f.env)
-            out.breaks += f.breaks
-            out.continues += f.continues
+        prev_ctx = getattr(self, "join_ctx", None)
+        self.join_ctx = st.test  # the condition whose arms are being joined (domains may quote it)
+        try:
+            for f in flows:
+                out.env = self.join_env(out.env, f.env)
+                out.breaks += f.breaks
+                out.continues += f.continues
+        finally:
+            self.join_ctx = prev_ctx
         return out
 
     def _loop(self, st, env: Env, bind: Optional[Callable[[Env], None]], test: Optional[ast.expr]) -> _Flow:
